@@ -101,6 +101,17 @@ example : accepts .fixed .plainOut ⟨100, true, false, 10000⟩ .ok (fun _ => 1
 example : sanity .fixed .plainOut ⟨100, true, false, 10000⟩ [⟨7, 0⟩, ⟨7, 1⟩] [199999900] = .inn := by
   decide
 
+/-- RegisterAsset (tx type 1) is refused at the input check for every input and output vector
+    (since `fix: refuse RegisterAsset transactions outside the genesis block`, a C06 repair): it can
+    never be accepted into the mempool or a block, so it cannot create value either -/
+theorem C01_register_asset_refused (rev : Rev) (env : Env) (sp : Special) (val : Nat → Fixed64)
+    (ins : List In) (outs : List Fixed64) :
+    classOf 1 = some .refused ∧ sanity rev .refused env ins outs = .inn ∧
+    accepts rev .refused env sp val ins outs = false := by
+  refine ⟨rfl, ?_, ?_⟩
+  · simp [sanity, inputOK]
+  · simp [accepts, sanity, inputOK]
+
 /-- the same statement restricted to what `Rev.pre` could guarantee: only for output
     vectors that are non-negative and whose exact total fits in int64 -/
 theorem C01_pre_partial
